@@ -215,6 +215,9 @@ func parseMethodMap(remaining string) (source, target, custom string, err error)
 	parts := strings.SplitN(remaining, "|", 2)
 	if len(parts) == 2 {
 		custom = strings.TrimSpace(parts[1])
+		if custom == "" {
+			return "", "", "", fmt.Errorf("missing function name after \"|\"")
+		}
 	}
 
 	fields := strings.Fields(parts[0])
